@@ -36,6 +36,9 @@ func FilterScripts() []*scriptref.Node {
 		scriptref.B("==", scriptref.P(scriptref.K("a"), scriptref.W()), scriptref.P(scriptref.K("x"), scriptref.W())),
 		// a $-rooted operand: the member of the document, not of the element
 		scriptref.B("==", scriptref.P(scriptref.K("x")), scriptref.RP(scriptref.K("x"))),
+		// a $-rooted operand that reads the list being filtered (when the document is that list):
+		// an evaluator that edits the list while it filters changes its own verdicts
+		scriptref.B("==", scriptref.P(), scriptref.RP(scriptref.I(0))),
 	}
 }
 
@@ -142,6 +145,14 @@ func PathData(maxNodes int) []any {
 		o("a", o("a", o("a", i(1), "x", i(2)), "x", []any{i(2), i(1)})),
 		[]any{o("a", []any{i(1), i(2)}, "x", []any{i(2), i(3)}), o("a", []any{i(1), i(2)}, "x", []any{i(3), i(4)}), o("a", []any{i(1), i(2), i(3), i(4)}, "x", []any{i(5), i(4)})},
 		o("x", i(2), "a", []any{o("x", i(1)), o("x", i(2)), o("x", i(3))}),
+		// several parents with several hits each and no object with two members:
+		// the order of every result is defined
+		[]any{[]any{i(1), i(2), i(3)}, []any{i(2), i(3)}, []any{i(3)}},
+		[]any{o("a", []any{i(1), i(2)}), o("a", []any{i(2), i(3)}), o("a", []any{i(3)})},
+		// null members: present, and not the same as absent
+		[]any{nil, i(1), nil, i(2)},
+		o("a", nil, "x", []any{nil, o("a", nil)}),
+		[]any{o("a", nil), o("x", nil), []any{nil}},
 	)
 	return out
 }
